@@ -381,6 +381,16 @@ def run(facts, rep, tier):
                     txt = " + ".join(("?" if m_ == "Maybe" else "") + (n_ or "Unknown") for m_, n_ in items) or "(no bounds)"
                     bad4 = "`T: %s` yields the impl set %s (documented: %s)" % (txt, got, sorted(want))
                     break
+            if bad4 is None:
+                # the type's own name: the tokens the user wrote, whatever the spacing (`dyn Trait`, `&'a T` need theirs)
+                written = "crate :: Tagged < dyn crate :: Marker , & 'a str >"
+                me = ("struct", "TypeAndImpls", {"type_name": written, "colon_token": mr4.NONE, "impls": []})
+                mach4.fuel = 50000
+                r_ = mach4.run_fn(ti[0], [me])
+                nm_ = r_[1][0] if isinstance(r_, tuple) and r_[0] == "tup" else None
+                toks = lambda t_: re.findall(r"[A-Za-z_0-9]+|'[a-z_]+|\S", t_ or "")
+                if not isinstance(nm_, str) or toks(nm_) != toks(written):
+                    bad4 = "the replacement type `%s` is handed to the generator as `%s`: tokens that need their spacing are fused, so the generator parses a different type" % (written, nm_)
         except mr4.Unknown as e_:
             bad4 = None
             rep.info("C15.D4 not evaluable (%s): the shape-based rules decide" % e_)
